@@ -9,8 +9,11 @@ Per generated coroutine body:
   (2) end to end: the emitted VHDL is executed by harness/vhdl_sim.py on generated input sequences and
       compared per clock with the reference semantics (Lean `refStep` with concrete actions).  Covers the
       back end, the state signal declaration / default and the IR export itself.
-A failing certificate is not by itself a violation: the failing-input search runs (2) on many more
-sequences (exhaustive short ones + random) and reports the minimised sequence; if none is found the
+  (3) mirror: the Lean mirror of the open-blocks algorithm (Model/CoroCompile.lean `compileSM`, about which
+      C01.compile_correct is proved for all programs) is run on the source body and its machine is compared
+      with the machine exported from the real IR - complete structure, states by position.
+A failing certificate / a mirror difference is not by itself a violation: the failing-input search runs (2) on
+many more sequences (exhaustive short ones + random) and reports the minimised sequence; if none is found the
 violation is reported with `no-failing-input-found`.
 """
 
@@ -686,10 +689,16 @@ def run(ctx: Ctx):
             todo.append((p, src, sx, vhdl, None))
             continue
         reqs.append(f"validate {sx} | {e['sm']}")
+        reqs.append(f"compile {sx}")
         todo.append((p, src, sx, vhdl, e["sm"]))
     answers = iter(lean_io.query("C01", reqs))
+    # designs the real compiler rejects: does the mirror reject them too?  (statistics only - rejecting is safe)
+    rej = [sx for p, sx, r in zip(progs, sxs, compiled) if not r[1]["ok"]]
+    for a in lean_io.query("C01", [f"compile {sx}" for sx in rej]) if rej else []:
+        ctx.dist["rejected-by-compiler:mirror-" + ("rejects" if a == "reject" else "accepts")] += 1
 
     n_cert_ok = n_cert_fail = n_e2e_bad = 0
+    n_mir_ok = n_mir_bad = 0
     n_seq, seq_len = ctx.scale(4, 12), ctx.scale(24, 120)
     sim_jobs, sim_meta = [], []
     for p, src, sx, vhdl, sm in todo:
@@ -702,25 +711,35 @@ def run(ctx: Ctx):
             ctx.dist[f"stmt:{k}"] += st[k]
         ctx.dist[f"depth:{st['depth']}"] += 1
         cert = next(answers) if sm is not None else "unsupported"
+        mirror = next(answers) if sm is not None else None
         seqs = gen_inputs(rng, n_seq, seq_len)
+        if mirror is not None:
+            if mirror == "bad-op" or not (mirror == "reject" or mirror.startswith("(sm")):
+                raise InfraError(f"model driver answered {mirror!r} to compile")
+            if mirror == sm:
+                n_mir_ok += 1
+            else:
+                n_mir_bad += 1
         if cert.startswith("ok"):
             n_cert_ok += 1
         elif cert.startswith("fail"):
             n_cert_fail += 1
-            # failing-input search: many more sequences, exhaustive short ones first
-            seqs = [list(s) for s in itertools.product([0, (1 << NC) - 1], repeat=8)] + gen_inputs(rng, 300, 80) + seqs
         elif cert == "unsupported":
             pass
         else:
             raise InfraError(f"model driver answered {cert!r}")
+        if cert.startswith("fail") or (mirror is not None and mirror != sm):
+            # failing-input search: many more sequences, exhaustive short ones first
+            seqs = [list(s) for s in itertools.product([0, (1 << NC) - 1], repeat=8)] + gen_inputs(rng, 300, 80) + seqs
         sim_jobs.append((sx, vhdl, seqs))
-        sim_meta.append((p, src, sx, vhdl, sm, cert))
+        sim_meta.append((p, src, sx, vhdl, sm, cert, mirror))
 
     # model traces in one driver call, simulations in a worker pool, comparison here
     flat = [f"reftrace {sx} | {NO} " + " ".join(map(str, s)) for sx, _, seqs in sim_jobs for s in seqs]
     model_flat = iter(lean_io.query("C01", flat))
     sims = fork_map(sim_task, [(vhdl, seqs) for _, vhdl, seqs in sim_jobs], fresh=False, chunk=4)
-    for (p, src, sx, vhdl, sm, cert), (_, _, seqs), r in zip(sim_meta, sim_jobs, sims):
+    n_mir_reported = 0
+    for (p, src, sx, vhdl, sm, cert, mirror), (_, _, seqs), r in zip(sim_meta, sim_jobs, sims):
         model = [next(model_flat) for _ in seqs]
         if r[0] != "ok":
             ctx.report("c01:sim-error:" + sx[:80], f"emitted VHDL of an accepted coroutine cannot be executed: {r[1]}",
@@ -748,17 +767,34 @@ def run(ctx: Ctx):
                        f"coroutine body and emitted design disagree at clock {b2[1]} of input sequence {seq}: expected outputs {b2[2]}, observed {b2[3]} (certificate: {cert})",
                        {"source": src, "stmt": sx, "sm": sm, "inputs": seq, "clock": b2[1], "expected": b2[2],
                         "observed": b2[3], "certificate": cert})
-        elif cert.startswith("fail"):
-            ctx.report("c01:certificate:" + sx[:200],
-                       f"certificate `closed` fails ({cert}) for an accepted coroutine but no failing input sequence was found",
-                       {"source": src, "stmt": sx, "sm": sm, "certificate": cert,
-                        "theorem": "C01.validate_sound hypothesis closed = true is not met for this design"},
-                       no_failing_input=True)
+        else:
+            if cert.startswith("fail"):
+                ctx.report("c01:certificate:" + sx[:200],
+                           f"certificate `closed` fails ({cert}) for an accepted coroutine but no failing input sequence was found",
+                           {"source": src, "stmt": sx, "sm": sm, "certificate": cert,
+                            "theorem": "C01.validate_sound hypothesis closed = true is not met for this design"},
+                           no_failing_input=True)
+            if mirror is not None and mirror != sm:
+                n_mir_reported += 1
+                if n_mir_reported <= 4:
+                    ctx.report("c01:mirror:" + sx[:200],
+                               "the state machine of the real IR differs from the Lean mirror of the open-blocks algorithm "
+                               f"(compileSM) for an accepted coroutine but no failing input sequence was found (certificate: {cert})",
+                               {"source": src, "stmt": sx, "sm": sm, "mirror": mirror, "certificate": cert,
+                                "theorem": "C01.compile_correct speaks about compileSM; the correspondence compileSM = real "
+                                           "state machine no longer holds for this design"},
+                               no_failing_input=True)
     ctx.obligation("certificates: closed(source body, real state machine) = true for every accepted generated design",
                    n_cert_fail == 0, kind="certificate", detail=f"{n_cert_ok} ok, {n_cert_fail} failed, {ctx.dist['ir-unsupported']} not exportable")
+    ctx.obligation("correspondence: Lean mirror compileSM(source body) = state machine exported from the real IR (complete "
+                   "structure, states by position) for every accepted generated design",
+                   n_mir_bad == 0, detail=f"{n_mir_ok} equal, {n_mir_bad} different; rejected designs: "
+                   f"{ctx.dist['rejected-by-compiler:mirror-rejects']} rejected by the mirror too, "
+                   f"{ctx.dist['rejected-by-compiler:mirror-accepts']} accepted by the mirror")
     ctx.obligation("correspondence: emitted VHDL trace = reference coroutine semantics on generated input sequences",
                    n_e2e_bad == 0, detail=f"{len(sim_jobs)} designs x {n_seq} sequences x {seq_len} clocks")
     ctx.extra["certificates_ok"] = n_cert_ok
+    ctx.extra["mirror_equal"] = n_mir_ok
     ctx.extra["accepted"] = len(accepted)
     ctx.extra["generated"] = len(progs)
     if ctx.dist["ir-unsupported"] > len(accepted) // 4:
@@ -779,6 +815,9 @@ def replay(ctx, data):
     if "inputs" not in r:
         e = fork_map(export_task, [r["source"]])[0][1]
         print(lean_io.query("C01", [f"validate {r['stmt']} | {e['sm']}"])[0])
+        m = lean_io.query("C01", [f"compile {r['stmt']}"])[0]
+        print("real  :", e["sm"])
+        print("mirror:", m, "(equal)" if m == e["sm"] else "(DIFFERENT)")
         return 1
     bad = end_to_end(r["stmt"], c["vhdl"], [r["inputs"]])
     print("inputs:", r["inputs"], "->", bad)
